@@ -27,8 +27,8 @@ class MichelsonParserError(ValueError):
         message = message or f'failed to parse expression {token}'
         super(MichelsonParserError, self).__init__(message)
         self.message = message
-        self.line = token.lineno
-        self.pos = token.lexpos
+        self.line = token.lineno if token is not None else 0  # no token: unexpected end of input
+        self.pos = token.lexpos if token is not None else 0
 
     def format_stdout(self) -> str:
         return f'{self.line}:{self.pos}: {self.message}'
